@@ -106,7 +106,7 @@ func (s *Solver) send(txt string) {
 func (s *Solver) level() int { return len(s.defLog) - 1 }
 
 func (s *Solver) push() {
-	s.send("(push 1)\n")
+	s.sb.WriteString("(push 1)\n") // buffered: must stay in order with the definitions in s.sb
 	s.defLog = append(s.defLog, nil)
 }
 
@@ -114,7 +114,7 @@ func (s *Solver) pop(n int) {
 	if n <= 0 {
 		return
 	}
-	s.send(fmt.Sprintf("(pop %d)\n", n))
+	fmt.Fprintf(&s.sb, "(pop %d)\n", n)
 	for i := 0; i < n; i++ {
 		top := s.defLog[len(s.defLog)-1]
 		for _, id := range top {
